@@ -200,6 +200,7 @@ theorem locals_reset_after_cleanup (N : Nat) (evs : List Ev) :
         | popN n => rw [shape_popN l0 n h0]
         | freeAll => rw [shape_freeAll l0 h0]
         | cleanup => rw [shape_cleanup l0 h0]
+        | fnReset => rw [shape_fnReset l0 h0]
         | enterLit =>
           simp only [stepLoc, h0.notBad, Bool.false_eq_true, if_false]
           split <;> split <;> simp [Loc.crash]
